@@ -20,6 +20,7 @@ const (
 	corsE1 = "http://a.example.com"
 	corsE2 = "https://b.org:8443"
 	corsE3 = "http://pred.example.net"
+	corsE4 = "http://[::1]:3000/_@^" // punctuation whose 0x20-twin is another character
 )
 
 type corsCfg struct {
@@ -64,7 +65,16 @@ func (c corsCfg) allowed(origin string) bool {
 // corsOrigins: every origin is a near miss of an entry (mutation operators), plus specials.
 func corsOrigins() []string {
 	set := map[string]bool{}
-	for _, e := range []string{corsE1, corsE2, corsE3} {
+	for _, e := range []string{corsE1, corsE2, corsE3, corsE4} {
+		// one byte replaced by its 0x20 twin (the same byte for digits, the other case for letters,
+		// a different character for @ [ \ ] ^ _ and their twins)
+		for i := 0; i < len(e); i++ {
+			b := []byte(e)
+			b[i] ^= 0x20
+			if b[i] > 0x20 && b[i] < 0x7f {
+				set[string(b)] = true
+			}
+		}
 		set[e] = true
 		set[strings.ToUpper(e)] = true
 		set[strings.ToUpper(e[:6])+e[6:]] = true
@@ -242,7 +252,7 @@ func replayC08(detail json.RawMessage) error {
 
 func corsCfgs(tier string) []corsCfg {
 	var out []corsCfg
-	for _, d := range [][]string{nil, {corsE1}, {corsE1, corsE2}, {".*"}, {corsE1, ".*"}} {
+	for _, d := range [][]string{nil, {corsE1}, {corsE1, corsE2}, {".*"}, {corsE1, ".*"}, {corsE4, corsE1}} {
 		for _, p := range []string{"", "e3", "none"} {
 			for _, ck := range []bool{false, true} {
 				for _, ex := range [][]string{nil, {"X-A"}} {
